@@ -75,9 +75,103 @@ theorem mutate_mem {ne : NumEnv} {d : Decl} {parent : Config} {active : List Boo
         · exact mutate_mem hw hp k (fun a' h' => ha a' (List.mem_cons_of_mem _ h')) h
         · cases h
 
-/-- contract of one child's environment -/
+/-- contract of a raw ConfigSpace sample (`C02_fill_inactive`'s): w.r.t. its completion `x`, a
+value is present exactly for the hyperparameters active in `x`, present values are members of their
+dimensions, and no forbidden clause holds -/
+def SampleOK (d : Decl) (s : Sample) : Prop :=
+  ∀ x, fillInactive d.hps s = some x →
+    sampleOK d.hps s (activeList d x) = true ∧ d.forbs.any (forbHolds d.hps x (activeList d x)) = false
+
+/-- the completion of a ConfigSpace sample is a member: a value for every hyperparameter, the
+canonical one for the inactive hyperparameters -/
+theorem complete_mem {d : Decl} {s : Sample} {y : Config} (hs : SampleOK d s)
+    (h : complete d s = .ok y) : fillInactive d.hps s = some y ∧ memSpace d y = true := by
+  unfold complete at h
+  split at h
+  · rename_i x hx
+    cases h
+    refine ⟨hx, ?_⟩
+    obtain ⟨h1, h2⟩ := hs _ hx
+    unfold memSpace
+    simp only [Bool.and_eq_true, Bool.not_eq_true']
+    exact ⟨fillInactive_memAll hx h1, h2⟩
+  · cases h
+
+theorem fillInactive_length : ∀ {hps : List Hp} {s : List (Option Val)} {x : Config},
+    fillInactive hps s = some x → x.length = hps.length ∧ s.length = hps.length
+  | [], [], x, h => by simp [fillInactive] at h; subst h; simp
+  | h :: hs, v :: vs, x, hx => by
+    simp only [fillInactive] at hx
+    split at hx
+    · rename_i w ws _ hws
+      cases hx
+      have := fillInactive_length hws
+      simp [this.1, this.2]
+    · cases hx
+  | [], _ :: _, _, h => by simp [fillInactive] at h
+  | _ :: _, [], _, h => by simp [fillInactive] at h
+
+/-- on a well-formed declaration (every dimension has a canonical value) a sample with one entry
+per hyperparameter can always be completed -/
+theorem fillInactive_total : ∀ {hps : List Hp} {s : List (Option Val)},
+    (∀ h ∈ hps, h.wf = true) → s.length = hps.length → ∃ x, fillInactive hps s = some x
+  | [], [], _, _ => ⟨[], rfl⟩
+  | h :: hs, v :: vs, hw, hl => by
+    have hl' : vs.length = hs.length := by simpa using hl
+    obtain ⟨xs, hxs⟩ := fillInactive_total (fun h' hh => hw h' (List.mem_cons_of_mem _ hh)) hl'
+    have hwf := hw h List.mem_cons_self
+    cases v with
+    | some w => exact ⟨w :: xs, by simp only [fillInactive, hxs]⟩
+    | none =>
+      have hc : ∃ w, canon h.dim = some w := by
+        simp only [Hp.wf, Bool.and_eq_true] at hwf
+        cases hd : h.dim with
+        | int lo hi p => exact ⟨_, rfl⟩
+        | real lo hi p => exact ⟨_, rfl⟩
+        | cat cs =>
+          have h1 := hwf.1
+          rw [hd] at h1
+          cases cs with
+          | nil => simp [Dim.wf] at h1
+          | cons c cs => exact ⟨c, rfl⟩
+      obtain ⟨w, hw'⟩ := hc
+      exact ⟨w :: xs, by simp only [fillInactive, hw', hxs]⟩
+  | [], _ :: _, _, hl => by simp at hl
+  | _ :: _, [], _, hl => by simp at hl
+
+theorem completeAll_mem {d : Decl} : ∀ {ss : List Sample} {X : List Config},
+    (∀ s ∈ ss, SampleOK d s) → completeAll d ss = .ok X → ∀ x ∈ X, memSpace d x = true
+  | [], X, _, h => by simp [completeAll] at h; subst h; simp
+  | s :: ss, X, hs, h => by
+    simp only [completeAll] at h
+    split at h
+    · rename_i x xs hx hxs
+      cases h
+      intro y hy
+      rcases List.mem_cons.1 hy with rfl | hy
+      · exact (complete_mem (hs s List.mem_cons_self) hx).2
+      · exact completeAll_mem (fun s' h' => hs s' (List.mem_cons_of_mem _ h')) hxs y hy
+    · cases h
+    · cases h
+
+theorem parentOf_mem {st : St} {idxs : List Nat} {parent : Config}
+    (h : parentOf st idxs = some parent) : ∃ y, (parent, y) ∈ st.pop := by
+  unfold parentOf at h
+  split at h
+  · cases h
+  · rename_i samples hs
+    cases hb : best samples with
+    | none => rw [hb] at h; cases h
+    | some b =>
+      rw [hb] at h
+      simp only [Option.map_some, Option.some.injEq] at h
+      subst h
+      exact ⟨b.2, samplesOf_mem hs _ (best_mem hb)⟩
+
+/-- contract of one child's environment: the fallback sample honours ConfigSpace's contract,
+`hp.rvs()` draws members -/
 def ChildOK (d : Decl) (e : ChildEnv) : Prop :=
-  memSpace d e.fresh = true ∧ ∀ a ∈ e.attempts, AttemptOK d a
+  SampleOK d e.fresh ∧ ∀ a ∈ e.attempts, AttemptOK d a
 
 theorem child_mem {ne : NumEnv} {d : Decl} {st : St} {e : ChildEnv} {y : Config} (hw : d.wf = true)
     (hpop : ∀ p ∈ st.pop, dimsAll d.hps p.1 = true) (he : ChildOK d e)
@@ -85,22 +179,35 @@ theorem child_mem {ne : NumEnv} {d : Decl} {st : St} {e : ChildEnv} {y : Config}
   unfold child at h
   split at h
   · cases h
-  · rename_i samples hs
+  · rename_i parent hb
+    obtain ⟨score, hmem⟩ := parentOf_mem hb
+    have hp : dimsAll d.hps parent = true := hpop _ hmem
     split at h
     · cases h
-    · rename_i parent score hb
-      have hp : dimsAll d.hps parent = true :=
-        hpop _ (samplesOf_mem hs _ (best_mem hb))
+    · rename_i p0 hp0
       split at h
       · cases h
-      · rename_i p0 hp0
-        split at h
-        · cases h
-        · rename_i z hz
-          cases h
-          exact mutate_mem hw hp 100 he.2 hz
-        · cases h
-          exact he.1
+      · rename_i z hz
+        cases h
+        exact mutate_mem hw hp 100 he.2 hz
+      · exact (complete_mem he.1 h).2
+
+/-- **the fallback branch.**  When none of the 100 mutation trials of a child yields an allowed
+configuration, the child is the *completion* of the fresh ConfigSpace sample — the call succeeds,
+the child has a value for every hyperparameter and is a member of the declared space -/
+theorem child_fallback {ne : NumEnv} {d : Decl} {st : St} {e : ChildEnv} {parent p0 : Config}
+    (hw : d.wf = true) (hpar : parentOf st e.idxs = some parent)
+    (hp0 : deactivateCS ne d parent = .ok p0)
+    (hexh : mutate ne d parent (activeList d p0) 100 e.attempts = .ok none)
+    (hlen : e.fresh.length = d.hps.length) (hs : SampleOK d e.fresh) :
+    ∃ y, child ne d st e = .ok y ∧ fillInactive d.hps e.fresh = some y ∧
+      y.length = d.hps.length ∧ memSpace d y = true := by
+  have hw' : ∀ h ∈ d.hps, h.wf = true := by
+    simpa [Decl.wf, List.all_eq_true] using hw
+  obtain ⟨y, hy⟩ := fillInactive_total hw' hlen
+  have hc : complete d e.fresh = .ok y := by simp [complete, hy]
+  refine ⟨y, ?_, hy, (fillInactive_length hy).1, (complete_mem hs hc).2⟩
+  simp only [child, hpar, hp0, hexh, hc]
 
 theorem children_mem {ne : NumEnv} {d : Decl} {st : St} (hw : d.wf = true)
     (hpop : ∀ p ∈ st.pop, dimsAll d.hps p.1 = true) : ∀ {envs : List ChildEnv} {X : List Config},
@@ -118,15 +225,15 @@ theorem children_mem {ne : NumEnv} {d : Decl} {st : St} (hw : d.wf = true)
     · cases h
     · cases h
 
-theorem ask_mem {ne : NumEnv} {d : Decl} {st : St} {n : Nat} {fresh : List Config}
+theorem ask_mem {ne : NumEnv} {d : Decl} {st : St} {n : Nat} {fresh : List Sample}
     {envs : List ChildEnv} {X : List Config} (hw : d.wf = true)
     (hpop : ∀ p ∈ st.pop, dimsAll d.hps p.1 = true)
-    (hf : ∀ x ∈ fresh, memSpace d x = true) (he : ∀ e ∈ envs, ChildOK d e)
+    (hf : ∀ s ∈ fresh, SampleOK d s) (he : ∀ e ∈ envs, ChildOK d e)
     (h : ask ne d st n fresh envs = .ok X) : ∀ x ∈ X, memSpace d x = true := by
   unfold ask at h
   split at h
   · split at h
-    · cases h; exact hf
+    · exact completeAll_mem hf h
     · cases h
   · split at h
     · exact children_mem hw hpop he h
@@ -170,7 +277,7 @@ theorem tell_pop {d : Decl} {st : St} (hpop : ∀ p ∈ st.pop, dimsAll d.hps p.
 
 /-- environment contract of one call -/
 def OpOK (d : Decl) : Op → Prop
-  | .ask _ fresh envs => (∀ x ∈ fresh, memSpace d x = true) ∧ ∀ e ∈ envs, ChildOK d e
+  | .ask _ fresh envs => (∀ s ∈ fresh, SampleOK d s) ∧ ∀ e ∈ envs, ChildOK d e
   | .tell results => ∀ r ∈ results, dimsAll d.hps r.1 = true
 
 theorem run_mem {ne : NumEnv} {d : Decl} (hw : d.wf = true) : ∀ {ops : List Op} {st st' : St}
